@@ -483,7 +483,7 @@ def judge(config, s, w):
                 obs['exceptions_in_ops_overlapping_a_concurrent_close(not judged)'] += 1
                 continue
             lab = exc_label(e)
-            if lab.startswith('client-exception:') and w.failed_launches:
+            if lab.startswith('client-exception:') and w.failed_launches and rec['op'] == 'C':
                 lab = 'retry-after-launch-failure:' + lab[len('client-exception:'):]
             out.append((lab, '%s of thread %d (script %s) raised %s: %s at remote.py:%s in %s `%s`' % (
                 {'P': 'prepare()', 'C': 'call', 'X': 'close()'}[rec['op']], rec['thread'],
@@ -629,7 +629,6 @@ def explore_config(part, config, how, seed, reported):
     part.count('distinct_interleavings', len(hashes))
     stats['distinct'] = len(hashes)
     stats['outcomes'] = sorted(map(repr, outcomes))
-    nthreads = len(config['scripts'])
     part.case(key + '|' + kind, nontrivial=len(hashes) >= 2)
     return stats
 
@@ -1043,7 +1042,8 @@ def build_jobs(run):
         return len(''.join(scripts)) ** 3 * VAR_COST[variant] * (4 if len(scripts) > 2 else 1)
 
     def sleep_job(scripts, variant):
-        jobs.append((weight(scripts, variant), [(cfg(scripts, variant), {'kind': 'sleep', 'cap': cap})]))
+        c = cap if q or len(scripts) > 2 else 2 * cap
+        jobs.append((weight(scripts, variant), [(cfg(scripts, variant), {'kind': 'sleep', 'cap': c})]))
 
     # 1 client: every script, every fault variant: sleep sets; plain DFS cross-check on the shorter ones
     one = NOCLOSE_SHORT + NOCLOSE_LONG + CLOSE_3 + CLOSE_4
@@ -1076,6 +1076,8 @@ def build_jobs(run):
         cvars = ('none', 'popen-raise', 'timeout')
     for p in cl:
         for v in cvars:
+            if v == 'timeout' and len(''.join(p)) > 4:
+                continue
             sleep_job(p, v)
     # 3 clients: exhaustive up to the preemption bound (plain DFS), sleep-set exhaustive where the cap
     # allows, PCT / random schedules on longer scripts
